@@ -202,7 +202,11 @@ pub fn c08_sources() -> Vec<(&'static str, String, Option<String>)> {
         };
         format!("#[typeshare]\npub struct Good {{\n    pub a: u32,\n}}\n\n#[typeshare]\npub struct Outer {{\n    pub keep: u32,\n{attr}    pub bad: {field_ty},\n}}\n")
     };
+    // the same behind a comment that makes the file large (found by a directory walk like any other file)
+    let pad = |n: usize, src: String| format!("//{}\n{src}", "x".repeat(n));
     vec![
+        ("u64-field-in-a-file-of-70-KiB", pad(70 * 1024, mk("u64", None)), Some(pad(70 * 1024, mk("u64", Some("serde"))))),
+        ("u64-field-in-a-file-of-3-MiB", pad(3 * 1024 * 1024, mk("u64", None)), Some(pad(3 * 1024 * 1024, mk("u64", Some("typeshare"))))),
         ("u64-field", mk("u64", None), Some(mk("u64", Some("serde")))),
         ("usize-deep", mk("Vec<Option<HashMap<String, Box<usize>>>>", None), Some(mk("Vec<Option<HashMap<String, Box<usize>>>>", Some("typeshare")))),
         ("tuple-deep", mk("Option<Vec<(u32, String)>>", None), Some(mk("Option<Vec<(u32, String)>>", Some("serde")))),
